@@ -235,6 +235,16 @@ func (logArea) Gen(r *hx.Rng, n int, _ string, emit func(string)) {
 			h := hs[r.Intn(len(hs))]
 			if r.Chance(1, 3) { // favour recent handlers so that chains grow
 				h = hs[len(hs)-1-r.Intn(min(3, len(hs)))]
+			} else if r.Chance(1, 3) { // and fan-out handlers once there are some
+				var ml []ghandler
+				for _, x := range hs {
+					if x.multi && len(x.sinks) > 0 {
+						ml = append(ml, x)
+					}
+				}
+				if len(ml) > 0 {
+					h = hx.Pick(r, ml)
+				}
 			}
 			anyHeld := len(held) > 0
 			c := r.Intn(100)
